@@ -609,6 +609,27 @@ def rule_r6(repo):
             if t == 'bool' and p.get('nbits') != 1:
                 rr.fail('layout:%s:bool' % f, f, 'bool parameter %s is %r bits wide' % (p.get('name'), p.get('nbits')))
         n += 1
+    # the presence flag of an optional section is read from the message (configure_section: message.is_section<k>_presents): every
+    # edition whose layouts include an optional section k publishes that flag as a property of the message, from a section before k
+    for (idx, ed), lay in sorted(L.items(), key=lambda kv: (kv[0][0], kv[0][1] or 0)):
+        if not lay.get('optional', False):
+            continue
+        flag = 'is_section%d_presents' % idx
+        editions = sorted(set(e for (i, e) in L if e is not None and e >= 2)) if ed is None else [ed]
+        for e in editions:
+            found = None
+            for j in range(idx):
+                lj = L.get((j, e)) or L.get((j, None))
+                for p_ in (lj or {}).get('parameters', []):
+                    if p_.get('name') == flag:
+                        found = (lj['__file__'], p_)
+            rr.instance('edition %d publishes %s' % (e, flag))
+            if found is None:
+                rr.fail('layout:edition%d:%s:absent' % (e, flag), lay['__file__'], 'no layout of edition %d before section %d has the flag %s the optional section is configured by' % (e, idx, flag))
+            elif not found[1].get('as_property', False) or found[1].get('type') != 'bool':
+                rr.fail('layout:edition%d:%s:not-published' % (e, flag), found[0], '%s declares %s as %r with as_property=%r: the flag is not published on the message, so the '
+                        'optional section %d of an edition %d message is configured from a default instead of from what the message says' % (
+                            found[0], flag, found[1].get('type'), found[1].get('as_property', False), idx, e))
     # whole-octet layouts: the fixed part of sections 0, 1, 3, 5 is a whole number of octets
     for (idx, ed), lay in L.items():
         tot = sum(p.get('nbits', 0) for p in lay.get('parameters', []))
